@@ -101,6 +101,7 @@ class Producer(object):
 
     _sendLooper = None
     _sendLooperD = None
+    stopping = False
 
     def __init__(
         self,
@@ -573,6 +574,10 @@ class Producer(object):
             Params:
             failed_payloads - list of (payload, failure) tuples
             """
+            if self.stopping:
+                # stop() cancelled the request; it fails every outstanding
+                # send itself, so there is nothing to retry or report.
+                return
             # Do we have retries left?
             if self._req_attempts >= self._max_attempts:
                 # No, no retries left, fail each failed_payload with its
